@@ -129,6 +129,7 @@ def outcomeText : Outcome → String
   | .err c => toString c
   | .unsupported w => "unsupported(" ++ w.replace " " "_" ++ ")"
   | .oob w => "OOB(" ++ w.replace " " "_" ++ ")"
+  | .dangling w => "DANGLING(" ++ w.replace " " "_" ++ ")"
 
 /-- run with an optional trace of every instruction boundary -/
 partial def runTrace (m : Module) (fuel : Nat) (s : VmState) (acc : Array String) (tr : Bool) : VmState × Outcome × Nat × Array String :=
@@ -173,7 +174,8 @@ def vmRun (ws : List String) : String :=
         else
           let (s, o, acc) := vmExec m fuel (trS == "1")
           let top := match s.stack.getLast? with | some v => valText v | none => "v"
-          let res := s!"R res={outcomeText o} out={hexOr s.out} top={top} live={s.heap.cells.length} dangling={s.heap.dangling}"
+          let eip := if o == .err Gen.vmErr_decode || o == .err Gen.vmErr_invalidOpcode then s!" eip={s.ip} efn={s.curFn}" else ""
+          let res := s!"R res={outcomeText o}{eip} out={hexOr s.out} top={top} live={s.heap.cells.length} dangling={s.heap.dangling}"
           if trS == "1" then "|".intercalate (acc.toList ++ [res]) else res
     | _, _ => "bad-op"
   | _ => "bad-op"
